@@ -170,6 +170,79 @@ func (ff *FuncFacts) PhiOperands(ph *ssa.Phi) []PhiEdge {
 	return out
 }
 
+// LockHeld reports whether, on every path from the entry of fn to target, the
+// lock selected by isLock/isUnlock is held at target (intraprocedural must
+// analysis; a deferred unlock keeps the lock held until the function returns).
+func LockHeld(fn *ssa.Function, isLock, isUnlock InstrPred, target ssa.Instruction, skip func(from, to *ssa.BasicBlock) bool) bool {
+	n := len(fn.Blocks)
+	out := make([]bool, n)
+	vis := make([]bool, n)
+	step := func(b *ssa.BasicBlock, in bool, stop ssa.Instruction) (bool, bool) {
+		cur := in
+		for _, ins := range b.Instrs {
+			if stop != nil && ins == stop {
+				return cur, true
+			}
+			if _, isDefer := ins.(*ssa.Defer); isDefer {
+				continue
+			}
+			if _, isGo := ins.(*ssa.Go); isGo {
+				continue
+			}
+			if isLock(ins) {
+				cur = true
+			} else if isUnlock(ins) {
+				cur = false
+			}
+		}
+		return cur, false
+	}
+	meet := func(b *ssa.BasicBlock) bool {
+		res, any := true, false
+		for _, p := range b.Preds {
+			if !vis[p.Index] || (skip != nil && skip(p, b)) {
+				continue
+			}
+			any = true
+			res = res && out[p.Index]
+		}
+		return any && res
+	}
+	for iter := 0; iter < 2*n+2; iter++ {
+		changed := false
+		for _, b := range fn.Blocks {
+			in := false
+			if b.Index != 0 {
+				reach := false
+				for _, p := range b.Preds {
+					if vis[p.Index] && !(skip != nil && skip(p, b)) {
+						reach = true
+					}
+				}
+				if !reach {
+					continue
+				}
+				in = meet(b)
+			}
+			o, _ := step(b, in, nil)
+			if !vis[b.Index] || o != out[b.Index] {
+				vis[b.Index], out[b.Index] = true, o
+				changed = true
+			}
+		}
+		if !changed {
+			break
+		}
+	}
+	tb := target.Block()
+	in := false
+	if tb.Index != 0 {
+		in = meet(tb)
+	}
+	cur, _ := step(tb, in, target)
+	return cur
+}
+
 // Removed reports whether the CFG edge was pruned by an assumption (for use as Flow.Skip).
 func (ff *FuncFacts) Removed(from, to *ssa.BasicBlock) bool {
 	return ff.removed[[2]int{from.Index, to.Index}] || !ff.reach[from]
